@@ -509,6 +509,21 @@ fn gen_step(ty: &Ty, dec: &Decoded, bytes: &[u8], t: &mut Tape, cfg: &HistCfg, s
             // header positions of all slots + terminator
             let mut headers: Vec<(usize, usize)> = geo.slots.iter().map(|p| (nd.off + p, nd.off + p + l.size())).collect();
             headers.push((nd.off + geo.tail_pos, nd.off + geo.tail_pos + l.size()));
+            let _ = &headers;
+            // write set of truncate(keep) / pop / clear: nothing when nothing is dropped; otherwise the
+            // slot of the new last item (it becomes the end of the chain) and the bytes of the dropped
+            // items - the slots and payloads of the items that stay belong to neighbours (C14-16)
+            let trunc_allowed = |keep: usize| -> Vec<(usize, usize)> {
+                let len = geo.slots.len();
+                if keep >= len {
+                    return vec![];
+                }
+                let mut v = vec![(nd.off + geo.slots[keep], nd.off + n)];
+                if keep > 0 {
+                    v.push((nd.off + geo.slots[keep - 1], nd.off + geo.slots[keep - 1] + l.size()));
+                }
+                v
+            };
             match k {
                 0..=3 => {
                     // push / push_default
@@ -564,7 +579,7 @@ fn gen_step(ty: &Ty, dec: &Decoded, bytes: &[u8], t: &mut Tape, cfg: &HistCfg, s
                         desc: format!("pop() at {:?} [{} items]", path, xs.len()),
                         op: Op::FPop,
                         expect: if p.is_some() { Expect::Done(Value::Flex(nv2)) } else { Expect::Refused },
-                        allowed: headers,
+                        allowed: trunc_allowed(xs.len().saturating_sub(1)),
                     })
                 }
                 6 | 7 => {
@@ -578,7 +593,7 @@ fn gen_step(ty: &Ty, dec: &Decoded, bytes: &[u8], t: &mut Tape, cfg: &HistCfg, s
                         desc: format!("truncate({}) at {:?} [{} items]", k, path, xs.len()),
                         op: Op::FTruncate(k),
                         expect: Expect::Done(Value::Flex(nv2)),
-                        allowed: headers,
+                        allowed: trunc_allowed(k),
                     })
                 }
                 8 => Some(Step {
@@ -586,7 +601,7 @@ fn gen_step(ty: &Ty, dec: &Decoded, bytes: &[u8], t: &mut Tape, cfg: &HistCfg, s
                     desc: format!("clear() at {:?} [{} items]", path, xs.len()),
                     op: Op::FClear,
                     expect: Expect::Done(Value::Flex(vec![])),
-                    allowed: headers,
+                    allowed: trunc_allowed(0),
                 }),
                 _ => assign(t, st),
             }
